@@ -106,7 +106,7 @@ impl Prop for C08 {
         "one run = a history (backups, stale-index double backups, forgets, non-instant prunes with repacking; in half of the v2 runs compression switched off/on followed by another backup; then merge of all snapshots, rewrite with excludes, v1->v2 upgrade + prune --repack-uncompressed when the repo is v1, copy into a repository with other key/compression/pack size; the tail optionally under a seeded schedule) \
          with drawn blob-size mixes, compression levels and pack-size limits; monitor: every pack and index file ever written (taken from the op log, including files deleted later) is decoded independently: \
          pack id = SHA-256(bytes), trailer length, header authenticates, entries tile the body in order, every blob authenticates/decompresses to its recorded length and hashes to its id, single blob type per pack; \
-         every index entry for a pack written in this world equals the header (type, id, offset, length, raw length) and the size. Then a seeded subset (or all) of the index files is removed, repair_index (+/- read_all) runs, \
+         every index entry for a pack written in this world equals the header (type, id, offset, length, raw length) and the size. Then a seeded subset (or all) of the index files is removed, in a third of the runs one or two unreadable pack files (truncated copies under other ids) are planted, repair_index (+/- read_all) runs, \
          and every snapshot must read back equal to its model with check(read_data) clean. evaluations = packs+index files audited + 1; non-trivial = >= 3 packs audited and an index file actually removed; distinct = hash(history, config, removed set)"
     }
     fn assumptions(&self) -> Vec<&'static str> {
@@ -285,6 +285,21 @@ impl Prop for C08 {
             }
         }
         rep.fire("lost_file(index)", removed.len() as u64);
+        // a pack file that cannot be read (truncated copy of a real pack under another id, as an
+        // interrupted upload to a non-atomic store leaves it): repair_index has to skip it and go on
+        let garbage = rng.chance(1, 3);
+        if garbage {
+            let packs = sim.store.list_ids(FileType::Pack);
+            if let Some(src) = packs.first().and_then(|id| sim.store.get(FileType::Pack, id)) {
+                for _ in 0..(1 + rng.usize(2)) {
+                    let mut idb = [0u8; 32];
+                    idb.copy_from_slice(&rng.bytes(32));
+                    let cut = rng.usize(src.len().max(1));
+                    sim.store.put_raw(FileType::Pack, &Id::new(idb), src.slice(..cut));
+                    rep.fire("unreadable_pack_planted", 1);
+                }
+            }
+        }
         let read_all = rng.chance(1, 3);
         {
             let (store, key) = (sim.store.clone(), sim.key.clone());
